@@ -261,7 +261,13 @@ pub fn date_to_rfc2822(params: &[Value]) -> NativeResult {
         [value] => {
             let datetime = NaiveDateTime::try_from(value)?;
 
-            Ok(Value::String(naive_to_fixed(datetime)?.to_rfc2822()))
+            let datetime = naive_to_fixed(datetime)?;
+
+            if !(0..=9999).contains(&datetime.year()) {
+                return Err(NativeError::from("year out of range for RFC 2822"));
+            }
+
+            Ok(Value::String(datetime.to_rfc2822()))
         }
         _ => Err(NativeError::WrongParameterCount(1)),
     }
